@@ -36,7 +36,7 @@ type Index struct {
 	ifaceMethodNames map[string]bool
 }
 
-func fieldRefOf(t types.Type, idx int) (FieldRef, bool) {
+func fieldRefOfRaw(t types.Type, idx int) (FieldRef, bool) {
 	if p, ok := t.Underlying().(*types.Pointer); ok {
 		t = p.Elem()
 	}
@@ -59,8 +59,8 @@ func fieldRefOf(t types.Type, idx int) (FieldRef, bool) {
 // field is addressed is itself stored by value in a field of another struct of the same package (state grouped into
 // an embedded or named part), the access is attributed to the outer struct: execution.counters.attempts is
 // "execution.attempts", config.listeners.onAbort is "config.onAbort". Exported outer structs and pointers stop the climb.
-func fieldRefOfAddr(fa *ssa.FieldAddr) (FieldRef, bool) {
-	fr, ok := fieldRefOf(fa.X.Type(), fa.Field)
+func fieldRefOfAddrRaw(fa *ssa.FieldAddr) (FieldRef, bool) {
+	fr, ok := fieldRefOfRaw(fa.X.Type(), fa.Field)
 	if !ok {
 		return fr, false
 	}
@@ -70,7 +70,7 @@ func fieldRefOfAddr(fa *ssa.FieldAddr) (FieldRef, bool) {
 		if !isFA {
 			break
 		}
-		outer, ok2 := fieldRefOf(inner.X.Type(), inner.Field)
+		outer, ok2 := fieldRefOfRaw(inner.X.Type(), inner.Field)
 		if !ok2 || outer.Pkg != fr.Pkg {
 			break
 		}
@@ -78,10 +78,68 @@ func fieldRefOfAddr(fa *ssa.FieldAddr) (FieldRef, bool) {
 		if _, isPtr := inner.Type().(*types.Pointer).Elem().Underlying().(*types.Struct); !isPtr {
 			break
 		}
-		fr = FieldRef{Type: outer.Type, Pkg: outer.Pkg, Field: fr.Field}
+		leaf := fr.Field
+		if i := strings.LastIndex(leaf, "."); i >= 0 {
+			leaf = leaf[i+1:]
+		}
+		field := leaf
+		// a leaf name that occurs more than once in the flattened struct stays qualified by its part
+		if on := namedOfPtr(inner.X.Type()); on != nil && leafCount(on, leaf, 0) > 1 {
+			partName := ""
+			if s, ok := on.Underlying().(*types.Struct); ok && inner.Field < s.NumFields() {
+				partName = s.Field(inner.Field).Name()
+			}
+			field = partName + "." + fr.Field
+		}
+		fr = FieldRef{Type: outer.Type, Pkg: outer.Pkg, Field: field}
 		x = inner.X
 	}
 	return fr, true
+}
+
+// leafCount: how many fields named leaf the struct and its by-value same-package parts declare.
+func leafCount(n *types.Named, leaf string, depth int) int {
+	s, ok := n.Underlying().(*types.Struct)
+	if !ok || depth > 3 {
+		return 0
+	}
+	k := 0
+	for i := 0; i < s.NumFields(); i++ {
+		f := s.Field(i)
+		if f.Name() == leaf {
+			k++
+		}
+		if pn, isN := f.Type().(*types.Named); isN && pn.Obj().Pkg() == n.Obj().Pkg() && !pn.Obj().Exported() {
+			if _, isStruct := pn.Underlying().(*types.Struct); isStruct {
+				k += leafCount(pn, leaf, depth+1)
+			}
+		}
+	}
+	return k
+}
+
+// fieldRefOf / fieldRefOfAddr: field references under the names the rules know (renamed fields are reported under
+// their upstream name once names.go / the field fingerprints have resolved them); the …Raw variants give the names
+// of the analysed tree and are what the resolution itself works with.
+func canonRef(fr FieldRef) FieldRef {
+	fr.Field = canonicalField(fr.Pkg + "." + fr.Type + "." + fr.Field)
+	return fr
+}
+
+func fieldRefOf(t types.Type, idx int) (FieldRef, bool) {
+	fr, ok := fieldRefOfRaw(t, idx)
+	if !ok {
+		return fr, false
+	}
+	return canonRef(fr), true
+}
+
+func fieldRefOfAddr(fa *ssa.FieldAddr) (FieldRef, bool) {
+	fr, ok := fieldRefOfAddrRaw(fa)
+	if !ok {
+		return fr, false
+	}
+	return canonRef(fr), true
 }
 
 // classify how the address produced by a FieldAddr is used: "r", "w" or "rw"/"escape".
@@ -131,6 +189,9 @@ func BuildIndex(p *Program) *Index {
 				switch x := in.(type) {
 				case *ssa.FieldAddr:
 					fr, ok := fieldRefOfAddr(x)
+					if rawIndex {
+						fr, ok = fieldRefOfAddrRaw(x)
+					}
 					if !ok {
 						continue
 					}
